@@ -180,6 +180,28 @@ CHECKS['C06'] = dict(
     technique='exhaustive small-scope + random differential against an executable model of the specification algorithm (Lean refinement proof pending)',
     ref='DESIGN.md section 5, C06')
 
+CHECKS['C04'] = dict(
+    category='exploration',
+    text='Interim level: metamorphic exploration on the implementation - the AST of Document(text) against the AST of the '
+         'same text with a block-quote marker before every line ("> " and ">") and with a list marker of width W before '
+         'its first line and W spaces before every other non-blank line (+ - * N. N) with padding 1-4), line numbers set '
+         'aside, link definitions compared - over spec examples, mutations, splices, random documents and strings. Two '
+         'recorded findings (setext heading inside a block quote; lines beginning with non-ASCII Unicode whitespace). The '
+         'Lean wrap lemmas over the block-parser model are the planned upgrade.',
+    note='Trusted: exporter as AST observation. Interim level, see DESIGN.md C04.',
+    technique='metamorphic exploration of the wrap laws on the implementation (Lean wrap lemmas pending the block-parser model)',
+    ref='DESIGN.md section 5, C04')
+
+CHECKS['C05'] = dict(
+    category='exploration',
+    text='Interim level: metamorphic exploration on the implementation - for pairs (A, B) meeting the side conditions the AST '
+         '(with line numbers) of A + blank line + B is compared with A\'s blocks followed by B\'s blocks shifted by the '
+         'number of preceding lines, over spec examples, mutations, splices, random documents and hand-picked container / '
+         'table / code pairs. The Lean locality theorem over the block-parser model is the planned upgrade.',
+    note='Trusted: exporter as AST observation. Interim level, see DESIGN.md C05.',
+    technique='metamorphic exploration of the concatenation law on the implementation (Lean locality theorem pending the block-parser model)',
+    ref='DESIGN.md section 5, C05')
+
 NOT_YET = {}
 
 
